@@ -697,7 +697,10 @@ class T:
                 return _num_src(me, a)
             if isinstance(a, SArr):
                 return _arr_src(me, a)
-            raise Unsupported("argument not concretisable")
+            if isinstance(a, ClassRef):  # a repository class held as a value (e.g. confidence_region_cls)
+                pre_lines.append("import %s as _mc_%s" % (a.module.relpath[:-3].replace("/", "."), a.name))
+                return "_mc_%s.%s" % (a.name, a.name)
+            raise Unsupported("argument not concretisable (%s)" % type(a).__name__)
 
         mod = call["relpath"][:-3].replace("/", ".")
         q = call["qualname"]
